@@ -8,8 +8,10 @@ import (
 	"os"
 	"path/filepath"
 	"runtime"
+	"sort"
 	"strings"
 	"sync"
+	"sync/atomic"
 	"time"
 
 	"github.com/evanw/esbuild/pkg/api"
@@ -464,6 +466,169 @@ func scenDirectedOnce(seed uint64, e *ctxEnv, idx int, which string, scale int, 
 	return false
 }
 
+// Burst of joiners that re-issue Rebuild the moment their first call returns.
+// The owner's build is held inside an on-load callback, `joiners` goroutines
+// join it, the inputs are edited, the build is released; every joiner calls
+// Rebuild() again immediately.  The second result must come from a strictly
+// later build and contain the edit.  The joiners log nothing between their two
+// calls: they take stamps from the context's atomic clock and their events are
+// merged into the history afterwards (sorted by stamp), so that the window
+// between "waiters released" and "activeBuild cleared" is actually hit.
+func scenBurstRejoin(seed uint64, e *ctxEnv, idx int, joiners int, export bool) bool {
+	t0 := time.Now()
+	defer func() {
+		if os.Getenv("C20_TIMING") != "" {
+			fmt.Fprintf(os.Stderr, "burst %d joiners: %v\n", joiners, time.Since(t0))
+		}
+	}()
+	r := NewRng(seed)
+	old := runtime.GOMAXPROCS([]int{4, 8, 16, 32}[r.Intn(4)])
+	defer runtime.GOMAXPROCS(old)
+	c := newCtxRec(r, e.tmp, idx)
+	c.failLoadPct, c.failEndPct, c.failStartPct, c.reenterPct = 0, 0, 0, 0
+	c.nInj, c.fsInj, c.useStdin, c.cssEntry, c.fsMarks, c.startMinUS = 0, false, false, false, nil, 0
+	c.write = false
+	c.gate = make(chan struct{})
+	c.gateMod = "m0"
+	desc := mkDesc("burst-rejoin", seed)
+	desc["joiners"] = joiners
+	ctx, cerr := api.Context(c.options())
+	if cerr != nil {
+		e.st.Fail("context-creation-failed", desc, cerr.Error(), "context is created")
+		return false
+	}
+	owner := c.async(ctx, "rebuild")
+	select {
+	case <-c.gateHit:
+	case <-time.After(callTimeout):
+		e.st.Fail("call-did-not-return", desc, "build never reached its on-load callback", "builds make progress")
+		return false
+	}
+	type jr struct {
+		s1, s2, s3, s4 int64
+		r1, r2         api.BuildResult
+	}
+	res := make([]jr, joiners)
+	var started, done sync.WaitGroup
+	started.Add(joiners)
+	done.Add(joiners)
+	for j := 0; j < joiners; j++ {
+		go func(j int) {
+			defer done.Done()
+			x := &res[j]
+			x.s1 = atomic.AddInt64(&c.clock, 1)
+			started.Done()
+			x.r1 = ctx.Rebuild()
+			x.s2 = atomic.AddInt64(&c.clock, 1)
+			x.s3 = atomic.AddInt64(&c.clock, 1)
+			x.r2 = ctx.Rebuild()
+			x.s4 = atomic.AddInt64(&c.clock, 1)
+		}(j)
+	}
+	started.Wait()
+	time.Sleep(time.Duration(2+r.Intn(6)) * time.Millisecond) // let the joiners reach the wait
+	c.edit()
+	// release the held build; later builds run freely
+	c.mu.Lock()
+	g := c.gate
+	c.gate = nil
+	c.mu.Unlock()
+	close(g)
+	fin := make(chan struct{})
+	go func() { done.Wait(); close(fin) }()
+	select {
+	case <-fin:
+	case <-time.After(callTimeout):
+		e.st.Fail("call-did-not-return", desc, "burst joiners did not return", "every call terminates")
+		return false
+	}
+	owner.wait()
+	c.mu.Lock()
+	ver := c.version
+	c.mu.Unlock()
+	// merge the joiners' events into the history
+	bad := false
+	violJ, violMsg := -1, ""
+	var extra []hev
+	for j := range res {
+		x := &res[j]
+		rv1, e1 := c.decodeResult(x.r1)
+		rv2, e2 := c.decodeResult(x.r2)
+		for _, msg := range append(e1, e2...) {
+			e.st.Fail("rebuild-result-not-one-complete-build", desc, msg, "the complete, internally consistent result of exactly one build")
+			bad = true
+		}
+		id1, id2 := 1000000+2*j, 1000001+2*j
+		extra = append(extra,
+			hev{Kind: "call", C: id1, Op: "rebuild", Stamp: x.s1}, hev{Kind: "ret", C: id1, Op: "rebuild", Rv: rv1, Stamp: x.s2},
+			hev{Kind: "call", C: id2, Op: "rebuild", Stamp: x.s3}, hev{Kind: "ret", C: id2, Op: "rebuild", Rv: rv2, Stamp: x.s4})
+		if violJ < 0 && rv1.Kind == "build" && (rv2.Kind != "build" || rv2.B <= rv1.B || !rv2.HasVer || rv2.Ver != ver) {
+			violJ = j
+			violMsg = fmt.Sprintf("first call returned %s; the second call, made after the first returned, returned %s (inputs are at version %d)", rvString(rv1), rvString(rv2), ver)
+		}
+	}
+	c.mu.Lock()
+	all := append(append([]hev{}, c.hist...), extra...)
+	sort.SliceStable(all, func(a, b int) bool { return all[a].Stamp < all[b].Stamp })
+	// call ids = ordinal of the call events
+	remap := map[int]int{}
+	n := 0
+	for i := range all {
+		if all[i].Kind == "call" {
+			remap[all[i].C] = n
+			all[i].C = n
+			n++
+		} else if all[i].Kind == "ret" {
+			all[i].C = remap[all[i].C]
+		}
+	}
+	c.hist = all
+	c.ncalls = n
+	c.mu.Unlock()
+	if violJ >= 0 {
+		// the failing history: the build events and the two calls of that joiner
+		var ex []hev
+		for _, ev := range all {
+			if (ev.Kind != "call" && ev.Kind != "ret") || ev.C == remap[1000000+2*violJ] || ev.C == remap[1000001+2*violJ] {
+				ex = append(ex, ev)
+			}
+		}
+		d2 := map[string]interface{}{"scenario": "burst-rejoin", "seed": seed, "joiners": joiners, "joiner": violJ,
+			"history_excerpt": histString(ex), "events_in_full_history": len(all)}
+		e.st.Fail("rebuild-returned-a-build-that-ended-before-the-call", d2, violMsg,
+			"a strictly later build that contains the edit made before the release (rule S2: the returned build had not been returned to anybody when the call was made)")
+		bad = true
+		if len(all) <= 1300 {
+			e.histCase = append(e.histCase, coqHist(all)) // the Coq checker must reject it too
+		}
+	}
+	out := c.doCall(ctx, "dispose", callTimeout)
+	if !out.returned {
+		e.st.Fail("call-did-not-return", desc, "final Dispose did not return", "every call terminates")
+	}
+	if !export {
+		// too long for the Coq run: Go monitor only
+		c.mu.Lock()
+		h := append([]hev{}, c.hist...)
+		c.mu.Unlock()
+		if i, rule := checkHistory(h); i >= 0 {
+			lo := i - 12
+			if lo < 0 {
+				lo = 0
+			}
+			desc["rejected_event"] = histString(h[i : i+1])
+			desc["history_around_rejected_event"] = histString(h[lo : i+1])
+			e.st.Fail("history-violates-context-specification", desc, rule, "every recorded history of a context satisfies rules S1-S9 (CtxSpec.history_ok)")
+			bad = true
+		}
+		e.st.Note("ctx-burst-rejoin", fmt.Sprint(seed), true)
+		return bad
+	}
+	nf := len(e.st.Failures)
+	e.finish(c, desc, "burst-rejoin")
+	return bad || len(e.st.Failures) > nf
+}
+
 // one-shot api.Build with the same plugins: only the callback trace and the
 // result are checked (there is no context history)
 func scenOneShotBuild(seed uint64, e *ctxEnv, idx int) {
@@ -510,6 +675,17 @@ func runContexts(r *Rng, e *ctxEnv, n int, tier string) {
 	scenDirected(r.U64(), e, 1100, "sequential-edits")
 	scenDirected(r.U64(), e, 1101, "join")
 	forceEntryOptions = false
+	// bursts of joiners re-issuing Rebuild (stop at the first violating burst)
+	for i := 0; i < 3; i++ {
+		if scenBurstRejoin(r.U64(), e, 4000+i, 48, true) {
+			break
+		}
+	}
+	for i := 0; i < 36+n/5; i++ {
+		if scenBurstRejoin(r.U64(), e, 4100+i, []int{64, 128, 256}[r.Intn(3)], false) {
+			break
+		}
+	}
 	// fixed corpus first: directed scenarios (including the replays of known findings)
 	for i, w := range []string{"sequential-edits", "join", "cancel", "dispose", "cancel-during-dispose", "second-dispose"} {
 		scenDirected(r.U64(), e, 1000+i, w)
